@@ -174,6 +174,33 @@ def macro_builds_linked_multictl(H, cname):
         H.check("default_macro_mapping_reloads", (b.min, b.max, b.controller) == (a.min, a.max, a.controller))
 
 
+@contract("macro_targets_keep_their_mappings_through_save_load", ["C20", "C08"], targets=_T[2:5] + ["rv.project:Project.chunks", "rv.readers.sunvox:SunVoxReader.process_end_of_file"])
+def macro_targets_keep_their_mappings_through_save_load(H, _):
+    """A macro over three targets given in DESCENDING module order (so that the link slots are not in
+    module-number order): after save + load the MultiCtl's i-th link still leads to the i-th target, and a
+    value sent through the loaded MultiCtl reaches every target inside that target's range."""
+    from rv.modules.filter import Filter
+    from rv.modules.multisynth import MultiSynth
+
+    p = Project()
+    amp = p.new_module(Amplifier)
+    flt = p.new_module(Filter)
+    ms = p.new_module(MultiSynth)
+    mc = MultiCtl.macro(p, (ms, "transpose"), (flt, "freq"), (amp, "volume"), name="macro")
+    H.check("in_memory_link_order_is_argument_order", mc.out_links == [ms.index, flt.index, amp.index])
+    q = rw.read_back(H, rw.write_container(H, p))
+    mc2 = q.modules[mc.index]
+    H.check("loaded_link_order_is_argument_order", list(mc2.out_links) == [ms.index, flt.index, amp.index] and L.links_ok(q) is None)
+    H.check("loaded_mappings_in_argument_order", [x.controller for x in mc2.mappings.values[:3]] == [x.controller for x in mc.mappings.values[:3]])
+    v = H.int("value", 0, 32768)
+    exc, _r = H.raises(H.setattr, mc2, "value", v)
+    H.check("delivery_after_load_does_not_raise", exc is None)
+    if exc is None:
+        a2, f2, m2 = q.modules[amp.index], q.modules[flt.index], q.modules[ms.index]
+        H.check("delivered_within_each_targets_range", H.and_(a2.volume >= 0, a2.volume <= 1024, f2.freq >= 0, f2.freq <= 14000, m2.transpose >= -128, m2.transpose <= 128))
+    H.cover("reached")
+
+
 @contract("macro_refusals", ["C20"], targets=_T[2:3])
 def macro_refusals(H, _):
     """More than 16 targets, or two targets on one module, raise MappingError and leave the project unchanged."""
